@@ -107,6 +107,8 @@ func init() {
 						return false
 					case strings.HasSuffix(name, "deleteRunningPipelineIfCurrent"):
 						top = append(top, "rollback")
+					case name == "close" && len(c.Args) == 1 && src(c.Args[0]) == "startupDone":
+						top = append(top, "releaseCleanup")
 					}
 				}
 				if _, ok := x.(*ast.FuncLit); ok {
